@@ -84,7 +84,7 @@ def spec(tier, seed, repo):
             for m in MODES:
                 floors["fault.%s.%s.%s" % (k, c, m)] = 10
     return dict(
-        stages=[stage("w_c13", repo, nshards=16, case_timeout=600 if q else 3000, env=ENV)],
+        stages=[stage("w_c13", repo, nshards=16, case_timeout=1800 if q else 3600, env=ENV)],
         level="fault_enumeration",
         rule="sender object A and receiver object B of one channel class (select|nonblock) and one of the 8 flag "
              "combinations {authenticated, encrypted, chunked}; the harness moves the bytes between A's output and B's "
